@@ -158,6 +158,9 @@ impl Object for Loop {
                 Ok(Value::from(false))
             }
         } else if name == "cycle" {
+            if args.is_empty() {
+                return Ok(Value::UNDEFINED);
+            }
             let idx = self.idx.load(Ordering::Relaxed);
             match args.get(idx % args.len()) {
                 Some(arg) => Ok(arg.clone()),
